@@ -76,6 +76,9 @@ func genBattle(r *Rng, maxW int, limits bool) *BattleCase {
 	nw := r.Range(1, maxW)
 	for i := 0; i < nw; i++ {
 		l := r.Range(1, min(m, 10))
+		if r.Chance(1, 40) {
+			l = r.Range(m+1, 3*m+2) // longer than the core: AddWarrior accepts any length, loading wraps and overwrites
+		}
 		w := &BWarrior{Code: make([]mars.Insn, l)}
 		for j := range w.Code {
 			w.Code[j] = livelyInsn(r, m)
